@@ -40,6 +40,19 @@ CLAIMED = {
  "C07": ("exploration", "bounded exhaustive enumeration of rejected projects (all include graphs up to k files x fault kind x position x line ending; all single-fault documents; all directive-instance sequences) with an independent location/trace reference",
          "For every rejected member: the error names a file of the project, an index inside it, the line/column recomputed independently from that index, the text of that line as quote, and Error() is the message followed by exactly the chain of INCLUDE directives of the reference include expansion, innermost first.",
          "Trusts internal/ref/location.go and the reference include expansion in internal/checks/c07.go; files with mixed line endings are not judged."),
+
+ "C08": ("exploration", "bounded exhaustive enumeration of layout rewrites at every legal site of every corpus document (single sites, all sites at once, global products; pairs in the thorough tier), differential oracle original vs rewritten",
+         "For every qualifying corpus document every listed rewrite is applied at every legal site computed from the original's lexemes; an accepted original must stay accepted with the same catalog, a rule-rejected original must stay rejected with the same error class and the error must move with the text. Generated documents x layouts are decided by C02/C03.",
+         "Legal sites are stated conservatively (no comment insertion after free Description text, no context wrap around PASTE-dependent subtrees or inside MACRO bodies, not in files using block comments); CR/CRLF inside string values and, for re-indentation, white space inside multi-line notes are normalised."),
+ "C09": ("exploration", "bounded exhaustive enumeration of INCLUDE cut sets over corpus documents (every sibling run at every level, nested chains, pairs), differential oracle unsplit vs split project on a real directory",
+         "Every contiguous sibling run of every qualifying corpus document is moved to its own file (with/without final newline, LF/CRLF piece; nested include chains of depth 2-3; pairs of cuts in the thorough tier); the split project must give byte-identical ToJson output, and for rule-rejected documents the same message at the mapped file and line.",
+         "Cut positions come from the scanner's lexemes and the reference context automaton; documents the automaton cannot confirm are skipped. Generated models x INCLUDE moves are decided by C02/C03/C07."),
+ "C10": ("exploration", "bounded exhaustive enumeration of MACRO abstractions of sibling runs over corpus documents (differential oracle: identical catalog bytes and expanded directive tree) and of all macro call graphs on 3 macros against a reference verdict",
+         "Every eligible sibling run of every accepted corpus document is abstracted into MACRO+PASTE (one macro before/after use, nested macros, two macros); ToJson bytes and the expanded directive tree must equal the in-place form. All 65,536 PASTE graphs over 3 macros and an undefined name are built and compared with the reference verdict (reachable cycle -> recursion error, reachable undefined -> macro not found, otherwise accepted with exactly the expanded declarations in order).",
+         "Eligibility (PASTE admitted at the site, MACRO admits the kinds, run stays inside the MACRO subtree) is decided by the reference automaton; unreachable cycles may give either verdict."),
+ "C15": ("exploration", "bounded exhaustive enumeration of permutations of independent top-level blocks (all permutations up to N blocks, transpositions/rotations/reversal beyond) over corpus, generated and hand-written dependency-shape documents",
+         "For every qualifying accepted document every permutation within the bound is built: it must be accepted, every section must hold the same entries with deep-equal content, and the key order of each section and the interaction order inside each tag must follow the new text order.",
+         "Block -> catalog key attribution is computed from the text and validated against the original catalog (documents it cannot explain are skipped and counted)."),
 }
 
 NOT_YET = {}
